@@ -277,10 +277,41 @@ pub fn run_property(def: &PropDef, cfg: &BatchCfg) -> i32 {
         }
         (def.scens.len() - 1, run)
     };
+    // watchdog: a library call that never returns (an endless loop inside one parse() or one poll that does not even
+    // touch the simulated transport) cannot be seen by any oracle inside the run; each worker publishes the run it is
+    // executing and when it started, and a run that exceeds the limit is reported as a hang with its seed
+    let hang_limit_ms: u64 = std::env::var("VERIF_HANG_S").ok().and_then(|s| s.parse::<u64>().ok()).unwrap_or(300) * 1000;
+    let cur_run: Vec<AtomicU64> = (0..cfg.workers).map(|_| AtomicU64::new(u64::MAX)).collect();
+    let cur_start: Vec<AtomicU64> = (0..cfg.workers).map(|_| AtomicU64::new(0)).collect();
+    let workers_done = AtomicU64::new(0);
+    let wid_next = AtomicU64::new(0);
     std::thread::scope(|sc| {
+        sc.spawn(|| {
+            while workers_done.load(Ordering::SeqCst) < cfg.workers as u64 {
+                std::thread::sleep(std::time::Duration::from_millis(200));
+                let now = t0.elapsed().as_millis() as u64;
+                for w in 0..cfg.workers {
+                    let run = cur_run[w].load(Ordering::SeqCst);
+                    let st = cur_start[w].load(Ordering::SeqCst);
+                    if run != u64::MAX && now.saturating_sub(st) > hang_limit_ms && cur_run[w].load(Ordering::SeqCst) == run {
+                        let (si, idx) = scen_of(run);
+                        let scen = &def.scens[si];
+                        let v = Violation::new("hang", "call_never_returned", format!("run {idx} of scenario {} did not finish within {} s: a library call never returned (endless loop inside one call)", scen.name, hang_limit_ms / 1000));
+                        let path = cfg.verif_dir.join("replays").join(format!("{}-{}-{}-{}.json", def.id, scen.name, cfg.seed, idx));
+                        let j = replay_json(def, scen, cfg.seed, idx, &[], &v, 0, &[]).set("seeded", J::Bool(true));
+                        write_file(&path, &j.to_string_pretty());
+                        println!("violation class {} scenario {} run {}: {}", v.key(), scen.name, idx, v.detail);
+                        println!("VIOLATION property={} replay={}", def.id, path.display());
+                        // (no evidence file is written for an aborted batch: its figures would be meaningless)
+                        std::process::exit(1);
+                    }
+                }
+            }
+        });
         for _w in 0..cfg.workers {
             sc.spawn(|| {
                 install_panic_hook();
+                let wid = wid_next.fetch_add(1, Ordering::SeqCst) as usize;
                 let mut local = Agg::default();
                 loop {
                     let run = next.fetch_add(64, Ordering::Relaxed);
@@ -292,7 +323,10 @@ pub fn run_property(def: &PropDef, cfg: &BatchCfg) -> i32 {
                         let scen = &def.scens[si];
                         let want_sample = idx < 2;
                         let ch = Chooser::record(run_seed(cfg.seed, def, scen, idx));
+                        cur_start[wid].store(t0.elapsed().as_millis() as u64, Ordering::SeqCst);
+                        cur_run[wid].store(run, Ordering::SeqCst);
                         let out = exec(scen.f, ch, false, want_sample);
+                        cur_run[wid].store(u64::MAX, Ordering::SeqCst);
                         local.done += 1;
                         local.stats.merge(&out.cx.st);
                         local.skeletons.insert(out.cx.skeleton);
@@ -316,6 +350,7 @@ pub fn run_property(def: &PropDef, cfg: &BatchCfg) -> i32 {
                         }
                     }
                 }
+                workers_done.fetch_add(1, Ordering::SeqCst);
                 let mut a = agg.lock().unwrap();
                 a.stats.merge(&local.stats);
                 a.skeletons.extend(local.skeletons);
@@ -478,6 +513,28 @@ pub fn replay_file(defs: &[PropDef], path: &Path) -> i32 {
     };
     let want_digest = j.get("digest").and_then(J::as_str).unwrap_or("").to_string();
     install_panic_hook();
+    if j.get("seeded").map_or(false, |b| matches!(b, J::Bool(true))) {
+        // a hang report: the replay is the seed; the run is repeated on a thread and must again fail to return
+        let seed = j.get("seed").and_then(J::as_u64).unwrap_or(0);
+        let idx = j.get("run_index").and_then(J::as_u64).unwrap_or(0);
+        let limit_s: u64 = std::env::var("VERIF_HANG_S").ok().and_then(|s| s.parse::<u64>().ok()).unwrap_or(300);
+        let f = scen.f;
+        let rs = run_seed(seed, def, scen, idx);
+        let (tx, rx) = std::sync::mpsc::channel();
+        std::thread::spawn(move || {
+            install_panic_hook();
+            let out = exec(f, Chooser::record(rs), false, false);
+            let _ = tx.send(match out.result { Ok(()) => "no violation".to_string(), Err(v) => format!("{} -- {}", v.key(), v.detail) });
+        });
+        return match rx.recv_timeout(std::time::Duration::from_secs(limit_s)) {
+            Err(_) => {
+                println!("replayed: {want_key} -- the run did not finish within {limit_s} s");
+                println!("VIOLATION property={} replay={}", def.id, path.display());
+                1
+            }
+            Ok(r) => { eprintln!("replay mismatch: the run finished ({r}); file says {want_key}"); 2 }
+        };
+    }
     let out = exec(scen.f, Chooser::replay(choices), true, true);
     for e in &out.cx.events {
         println!("  {e}");
